@@ -42,6 +42,17 @@ def gen_case(rng, params, index):
         qml = ("import qmluic.QtWidgets\nQWidget {\n    id: root\n    QVBoxLayout {\n        SimWidget {\n            id: w1\n            %s\n        }\n"
                "        SimWidget { id: w2; outFlag: w1.flag }\n    }\n}\n" % line)
         return {"kind": "rejection", "shape": kind, "expect_reject": (kind, line) in REJECT_SHAPES, "qml": qml, "type_name": "Doc"}
+    if rng.chance(0.15):
+        # functions with 2-5 observers (one block and several blocks), chains of two hops: every observer slot must
+        # survive re-pointing and death/re-creation of what it watches
+        from . import world
+        doc = gen.doc_observers(rng.fork("doc"), rng.choice(qtcheck.TYPE_NAMES))
+        hists = []
+        for k in range(params["histories"]):
+            s = world.Scheduler(doc, rng.fork("hist", k), profile="bindings")
+            il, io = s.initial()
+            hists.append({"init": {"lines": il, "ops": io}, "groups": s.history(rng.randint(20, params["events"]))})
+        return {"kind": "qtdoc", "profile": "bindings", "doc": doc, "histories": hists, "gen_errors": []}
     return qtcheck.gen_doc_case(rng, "bindings", params["histories"], rng.randint(max(8, params["events"] // 3), params["events"]))
 
 
